@@ -1,16 +1,26 @@
 #!/usr/bin/env python3
 """C05 - scoped constructs restore scope, capture and escape state on every path (DESIGN.md §3 C05).
 
-Deciding method: the Coq-verified checker `check_ann` (theorem check_ann_sound: acceptance implies
-every abstract path balanced) is extracted and run on the REAL instruction streams the current
-compiler emits for generated templates and for the repository's fixtures; a dynamic oracle renders
-the same templates (sentinel after the constructs must reach the output; no panic; no hang)."""
+Deciding method:
+ (1) static: the Coq-verified checker `check_rec` (theorems check_ann_sound / check_rec_sound: acceptance implies
+     that the real, interprocedural shape machine - recursion calls into recursive loops to any depth included - is
+     never stuck and ends balanced) is extracted and run on the REAL instruction streams the current compiler emits
+     for generated templates and for the repository's fixtures; what the VM pops when a recursion call returns is
+     read from vm/mod.rs of the tree under test (tools/absinstr.py::vm_return_rule);
+ (2) trace: every render runs under the shape observer (hook __verif::set_shape_observer); the observed run of each
+     activation of eval_impl is replayed step by step through the extracted abstract machine (runner c05-trace):
+     next pc must be an abstract successor, observed depths must be the abstract shape's;
+ (3) oracles on the rendered output: sentinel after the constructs, escape-state family, the recursive-loop family
+     with its expected output computed by the extracted Gallina oracle C05/RecLoop.v, and the reference interpreter
+     (Lang/Interp) for generated programs without recursion calls."""
 import os, sys, collections, itertools, glob
+from concurrent.futures import ThreadPoolExecutor
 sys.path.insert(0, os.path.dirname(os.path.dirname(os.path.abspath(__file__))))
 from vlib import *
 import proggen, absinstr, langenc
 
 SENT = "«END»"
+NPROC = 12
 
 def nestings(depth):
     """all nestings (outer -> inner) of the scoped constructs, with a break/continue at the innermost point"""
@@ -73,80 +83,344 @@ def escape_state_family():
     return out
 
 
-def fixture_templates():
+# ---------------------------------------------------------------------------------------------
+# the recursive-loop family (oracle: coq/theories/C05/RecLoop.v, runner c05-rec)
+# ---------------------------------------------------------------------------------------------
+POS = ["emit", "set", "filterarg", "filterin", "catl", "catr", "listitem", "test", "macroarg", "ifcond", "via"]
+BK = ["with", "setblock", "filterblock", "autoescape"]
+REC_PRELUDE = ("{% macro mm() %}m{% endmacro %}{% macro idm(x) %}{{ x }}{% endmacro %}"
+               "{% macro callit(l, c) %}({{ l(c) }}){% endmacro %}{% set ns = namespace() %}"
+               "{% from 'reclib' import xcall %}")
+REC_AUX = {"reclib": "lib text that must stay silent{% macro helper() %}h{% endmacro %}{% macro xcall(l, c) %}({{ l(c) }}){% endmacro %}",
+           "recinc": "{{ loop(n.children) }}"}
+
+
+def rec_item_src(it, callee):
+    """source text of one body item; callee = name under which the recursive loop object is reachable here"""
+    k = it[0]
+    call = "%s(n.children)" % callee
+    if k == "txt": return chr(it[1])
+    if k == "name": return "{{ n.name }}"
+    if k == "lt": return "{{ lt }}"
+    if k == "call":
+        p = it[1]
+        if p == "emit": return "{{ %s }}" % call
+        if p == "set": return "{%% set s = %s %%}({{ s }})" % call
+        if p == "filterarg": return "{{ 'x'|replace('x', %s) }}" % call
+        if p == "filterin": return "{{ %s|replace('#', '#') }}" % call
+        if p == "catl": return "{{ %s ~ n.name }}" % call
+        if p == "catr": return "{{ n.name ~ %s }}" % call
+        if p == "listitem": return "{{ [n.name, %s]|join('/') }}" % call
+        if p == "test": return "{%% if %s is string %%}T{%% else %%}F{%% endif %%}" % call
+        if p == "macroarg": return "{{ idm(%s) }}" % call
+        if p == "ifcond": return "{%% if %s %%}Y{%% else %%}N{%% endif %%}" % call
+        if p == "via": return "{%% if n.via %%}{{ callit(%s, n.children) }}{%% else %%}{{ %s }}{%% endif %%}" % (callee, call)
+    if k == "quiet":
+        return {"do": "{% do range(1) %}", "fromimport": "{% from 'reclib' import helper %}", "set": "{% set unused = 1 %}",
+                "setns": "{% set ns.l = loop %}", "setlp": "{% set lp = loop %}"}[it[1]]
+    if k == "macrocall": return "{{ mm() }}"
+    if k == "block":
+        inner = "".join(rec_item_src(x, callee) for x in it[2])
+        if it[1] == "with": return "{% with w = 1 %}" + inner + "{% endwith %}"
+        if it[1] == "setblock": return "{% set z %}" + inner + "{% endset %}{{ z }}"
+        if it[1] == "filterblock": return "{% filter replace('#', '#') %}" + inner + "{% endfilter %}"
+        if it[1] == "autoescape": return "{% autoescape true %}" + inner + "{% endautoescape %}"
+    if k == "forn":
+        _, n, ctl, b1, b2 = it
+        s = "{%% for q in range(%d) %%}" % n + "".join(rec_item_src(x, "lp") for x in b1)
+        if ctl is not None:
+            s += "{%% if q == %d %%}{%% %s %%}{%% endif %%}" % (ctl[1], "break" if ctl[0] else "continue")
+        return s + "".join(rec_item_src(x, "lp") for x in b2) + "{% endfor %}"
+    if k == "innerrec":
+        return "{% for m in n.children recursive %}[{{ m.name }}{{ loop(m.children) }}]" + ("{% else %}0" if it[1] else "") + "{% endfor %}"
+    if k == "fail":
+        return {"macro_other": "{{ xcall(%s, n.children) }}" % callee, "include": "{% include 'recinc' %}"}[it[2]]
+    raise ValueError(it)
+
+
+def rec_item_enc(it):
+    k = it[0]
+    if k == "txt": return [0, it[1]]
+    if k == "name": return [1]
+    if k == "lt": return [2]
+    if k == "call": return [3, POS.index(it[1])]
+    if k == "quiet": return [4]
+    if k == "macrocall": return [5]
+    if k == "block":
+        return [6, BK.index(it[1]), len(it[2])] + [x for y in it[2] for x in rec_item_enc(y)]
+    if k == "forn":
+        _, n, ctl, b1, b2 = it
+        return ([7, n, 0 if ctl is None else 1, 1 if (ctl and ctl[0]) else 0, ctl[1] if ctl else 0, len(b1)] + [x for y in b1 for x in rec_item_enc(y)]
+                + [len(b2)] + [x for y in b2 for x in rec_item_enc(y)])
+    if k == "innerrec": return [8, 1 if it[1] else 0]
+    if k == "fail": return [9, it[1]]
+    raise ValueError(it)
+
+
+def rec_tree_enc(ts):
     out = []
-    for f in sorted(glob.glob(os.path.join(REPO, "minijinja/tests/inputs/*.txt")) + glob.glob(os.path.join(REPO, "minijinja/tests/inputs/*.html"))):
+    for t in ts:
+        out += [ord(t["name"]), 1 if t["via"] else 0, len(t["children"])] + rec_tree_enc(t["children"])
+    return out
+
+
+def rec_template(body, has_else, after):
+    """-> source of the family member: prelude, the loop, the optional call after the loop, the sentinel"""
+    src = REC_PRELUDE + "{% for n in tree recursive %}{% set lp = loop %}" + "".join(rec_item_src(x, "loop") for x in body)
+    src += ("{% else %}-" if has_else else "") + "{% endfor %}"
+    if after:
+        src += "{% set l2 = ns.l %}{{ '(' ~ l2(tree2) ~ ')' }}"
+    return src + "|{{ lt }}after"
+
+
+def rec_case(body, has_else, tree, tree2):
+    return [1 if has_else else 0, len(body)] + [x for y in body for x in rec_item_enc(y)] + [len(tree)] + rec_tree_enc(tree) + \
+           [0 if tree2 is None else 1, len(tree2 or [])] + rec_tree_enc(tree2 or [])
+
+
+def rec_trees():
+    """trees of depth 0..4 including empty child lists; `via` only on top-level nodes"""
+    def N(name, *ch, via=False):
+        return {"name": name, "via": via, "children": list(ch)}
+    return [
+        [],
+        [N("a", via=True)],
+        [N("a", N("b"), via=True)],
+        [N("a", N("b"), N("c", N("d")), via=True), N("e")],
+        [N("a", N("b", N("c", N("d", N("e")))), N("f")), N("g", N("h"), via=True)],
+        [N("a"), N("b", N("c"), N("d", N("e", N("f"), N("g")), N("h")), via=True), N("i", N("j", N("k", N("l", N("m")))))],
+    ]
+
+
+def rec_family(rng, nrandom):
+    """-> list of (label, body, has_else, after?) ; systematic part: every call position x else x wrapper"""
+    out = []
+    def wrappers(call, p):
+        ws = [("plain", [call]), ("with", [("block", "with", [("txt", 119), call])]), ("setblock", [("block", "setblock", [call, ("txt", 122)])]),
+              ("forn", [("forn", 2, None, [("txt", 113)], [call])]),
+              ("fornbreak", [("forn", 3, (True, 1), [call], [("txt", 98)])]),
+              ("forncontinue", [("forn", 3, (False, 0), [("txt", 99)], [call])]),
+              ("nested2", [("block", "with", [("block", "setblock", [("forn", 2, (False, 1), [call], [("name",)])])])])]
+        if p not in ("via",):
+            ws.append(("filterblock", [("block", "filterblock", [call, ("txt", 102)])]))
+        if p in ("emit", "set"):
+            ws.append(("autoescape", [("block", "autoescape", [("lt",), call, ("lt",)]), ("lt",)]))
+        return ws
+    extras_sets = [[], [("quiet", "do")], [("quiet", "fromimport")], [("quiet", "do"), ("quiet", "fromimport"), ("innerrec", True)]]
+    for p in POS:
+        for has_else in (False, True):
+            for wn, w in wrappers(("call", p), p):
+                ex = extras_sets[(len(out)) % len(extras_sets)]
+                esc_family = wn == "autoescape"
+                pre = [("txt", 91), ("name",)] if p not in ("catl", "catr", "listitem") else [("txt", 91)]
+                body = pre + list(ex) + w + ([("macrocall",)] if p not in ("via",) and not esc_family and len(out) % 3 == 0 else []) + [("txt", 93)]
+                out.append(("sys:%s:%s:%s" % (p, "else" if has_else else "noelse", wn), body, has_else, False))
+    # the call after the loop through a loop object stored in a namespace; the error families
+    for has_else in (False, True):
+        for p in ("emit", "catr", "set", "listitem"):
+            out.append(("after:%s:%s" % (p, has_else), [("quiet", "setns"), ("txt", 91), ("name",), ("call", p), ("txt", 93)], has_else, True))
+        out.append(("err:macro_other:%s" % has_else, [("txt", 91), ("name",), ("fail", 3, "macro_other"), ("txt", 93)], has_else, False))
+        out.append(("err:include:%s" % has_else, [("txt", 91), ("name",), ("fail", 16, "include"), ("txt", 93)], has_else, False))
+    # random bodies
+    def rnd_items(depth, esc, via_family, in_forn, budget):
+        items = []
+        n = 1 + rng.below(4)
+        for _ in range(n):
+            r = rng.below(14)
+            if r <= 1: items.append(("txt", 97 + rng.below(26)))
+            elif r == 2: items.append(("name",))
+            elif r == 3: items.append(("lt",))
+            elif r <= 6 and budget[0] > 0:
+                budget[0] -= 1
+                if esc: p = ("emit", "set")[rng.below(2)]
+                elif via_family: p = ("via", "emit", "set", "catr", "catl", "listitem", "filterarg", "filterin", "ifcond", "test")[rng.below(10)]
+                else: p = POS[rng.below(10)]
+                items.append(("call", p))
+            elif r == 7: items.append(("quiet", ("do", "fromimport", "set")[rng.below(3)]))
+            elif r == 8 and not via_family: items.append(("macrocall",))
+            elif r <= 10 and depth > 0:
+                ks = ["with", "setblock"] + ([] if esc else ["filterblock"]) + (["autoescape"] if esc else [])
+                bk = ks[rng.below(len(ks))]
+                items.append(("block", bk, rnd_items(depth - 1, esc, via_family, in_forn, budget)))
+            elif r == 11 and depth > 0 and not in_forn:
+                k = 1 + rng.below(3)
+                ctl = None if rng.below(3) == 0 else (rng.below(2) == 0, rng.below(k))
+                items.append(("forn", k, ctl, rnd_items(depth - 1, esc, via_family, True, budget), rnd_items(depth - 1, esc, via_family, True, budget)))
+            elif r == 12: items.append(("innerrec", rng.below(2) == 0))
+            else: items.append(("txt", 46))
+        return items
+    for j in range(nrandom):
+        fam = rng.below(4)      # 0,1: general; 2: escape family (calls inside autoescape); 3: via-macro family
+        budget = [2]            # at most two calls per body execution: the output grows like calls^depth
+        if fam == 2:
+            inner = rnd_items(2, True, False, False, budget)
+            body = [("txt", 91), ("lt",), ("block", "autoescape", inner), ("lt",), ("txt", 93)]
+        else:
+            body = [("txt", 91)] + rnd_items(2, False, fam == 3, False, budget) + [("txt", 93)]
+        if budget[0] == 2:
+            body.insert(1, ("call", "emit"))
+        out.append(("rnd%d:%d" % (fam, j), body, rng.below(2) == 0, False))
+    return out
+
+
+def fixture_cases():
+    """-> (name, source, context or None, aux templates): the repository's fixtures with their own context (first part of
+    the file) and the templates under inputs/refs they include / extend"""
+    base = os.path.join(REPO, "minijinja/tests/inputs")
+    refs = {}
+    for f in sorted(glob.glob(os.path.join(base, "refs/*"))):
+        try:
+            refs[os.path.basename(f)] = open(f, encoding="utf8").read()
+        except Exception:
+            pass
+    out = []
+    for f in sorted(glob.glob(os.path.join(base, "*.txt")) + glob.glob(os.path.join(base, "*.html"))):
         try:
             txt = open(f, encoding="utf8").read()
         except Exception:
             continue
-        # fixtures start with a JSON context line followed by '---'
         parts = txt.split("\n---\n", 1)
-        out.append((os.path.basename(f), parts[1] if len(parts) == 2 else txt))
+        ctx = None
+        if len(parts) == 2:
+            try:
+                ctx = json.loads(parts[0])
+            except Exception:
+                ctx = None
+        if isinstance(ctx, dict) and "$settings" in ctx:
+            ctx = None          # needs a differently configured environment: static check only
+        out.append((os.path.basename(f), parts[1] if len(parts) == 2 else txt, ctx, refs))
     return out
+
+
+def pmap(fn, items, nchunks=NPROC):
+    """fn(list) -> list, applied to chunks in parallel (the work is in child processes)"""
+    if not items:
+        return []
+    size = max(1, (len(items) + nchunks - 1) // nchunks)
+    chunks = [items[i:i + size] for i in range(0, len(items), size)]
+    with ThreadPoolExecutor(max_workers=nchunks) as ex:
+        res = list(ex.map(fn, chunks))
+    return [x for r in res for x in r]
+
+
+def has_loop_call(body):
+    """a generated AST calls loop(): the reference interpreter has no recursion calls"""
+    return "loop(" in proggen.body_src(body)
 
 
 def main():
     chk = Check("C05", "proof")
     chk.cov["trusted_base"] = TRUSTED_COMMON + [
-        "Print Assumptions: check_ann_sound, verdict_sound closed under the global context",
-        "tools/absinstr.py: translation of the real Instruction JSON dump into the abstract instructions (operand-stack arities, successor targets) - unverified glue; the abstract shape machine of C05/Model.v is the semantics the theorem speaks about, its agreement with eval_impl is checked dynamically (renders) not proved",
-        "recursive-loop calls (FastRecurse / loop()) and macro, block, include, super() calls are summarised as balanced calls (each callee stream/entry point is checked separately)"]
-    chk.assumptions = ["the annotation inferencer is unverified; only its result is trusted through check_ann",
-                       "typing a LoadConst(0) as an empty counted bundle is sound; the translator chooses where (filtered-loop accumulator)"]
+        "Print Assumptions: check_ann_sound, verdict_sound, check_rec_sound, verdict_rec_sound closed under the global context",
+        "tools/absinstr.py: translation of the real Instruction JSON dump into the abstract instructions (operand-stack arities, successor targets, which calls may start a recursion) "
+        "and its reader of the PopLoopFrame arm of vm/mod.rs (what the VM pops when a recursion call returns; fails loudly on unknown syntax) - unverified glue",
+        "the abstract shape machine of C05/Model.v (edges + call_edges) is the semantics the theorems speak about; its agreement with eval_impl is CHECKED step by step on every traced render "
+        "(shape observer hook + extracted replayer C05/Trace.v), not proved; the hook (feature verif_hooks) reports depths only",
+        "macro, block, include and super() calls are summarised as balanced calls (each callee stream / entry point is checked separately; every activation is traced separately)",
+        "C05/RecLoop.v is an executable oracle (a fold over the tree), not a theorem about the engine"]
+    chk.assumptions = ["the annotation inferencer is unverified; only its result is trusted through check_rec",
+                       "typing a LoadConst(0) as an empty counted bundle is sound; the translator chooses where (filtered-loop accumulator)",
+                       "a recursion call re-enters only loops of the same instruction stream (vm/mod.rs compares the stream address since 1442a27; the error families of the recursive-loop generator exercise it)"]
     okm, blog = build_models("C05")
     proofs_ok = chk.run_proofs()
-    okc, clog = cargo_build(["prog"], release=False)
+    okc, clog = cargo_build(["prog", "c05_trace"], release=False)
     okr, clog2 = cargo_build(["prog"], release=True)
     if not (okc and okr):
-        chk.violation("harness does not build against the current tree", {"theorem_or_correspondence": "build harness/src/bin/prog.rs", "log": (clog + clog2)[-1500:]}, True)
+        chk.violation("harness does not build against the current tree", {"theorem_or_correspondence": "build harness/src/bin/prog.rs, c05_trace.rs", "log": (clog + clog2)[-1500:]}, True)
         chk.finish()
     if not okm:
         chk.violation("model build failed", {"theorem_or_correspondence": "coq/theories/C05 build", "log": blog[-1500:]}, True)
         chk.finish()
-    # ---- templates ----
-    templates = []
-    gen_asts = {}      # template index -> AST, for the state-restoration differential
-    expected = {}      # template index -> expected output (None: only the consistency oracle)
+    hist = collections.Counter()
+    base_ctxs = [{"l": [1, 2, 3], "c": True, "t": True, "n": 3, "m": 2, "s": "a<b", "k": [1, 2], "v": "<"},
+                 {"l": [1, 2, 3], "c": False, "t": True, "n": 0, "m": -2, "s": "", "k": [], "v": "<"},
+                 {"l": [], "c": True, "t": False, "n": 7, "m": 10, "s": "Q'", "k": [1], "v": "<"}]
+    base_aux = {"inc0.txt": "i0", "inc1.txt": "{{ n }}"}
+    # ---- templates: records {name, src, main, aux, ctxs, expect (per ctx: None | ("ok", s) | ("err", kind)), sentinel, ast} ----
+    T = []
+    def add(name, src, ctxs=None, expect=None, aux=None, sentinel=SENT, ast=None, main="main", dynamic=True):
+        ctxs = base_ctxs if ctxs is None else ctxs
+        T.append({"name": name, "src": src, "main": main, "aux": dict(base_aux if aux is None else aux), "ctxs": ctxs,
+                  "expect": expect or [None] * len(ctxs), "sentinel": sentinel, "ast": ast, "dynamic": dynamic})
     if chk.replay:
-        rp = json.load(open(chk.replay))
-        templates.append(("replay", rp["replay"]["template"]))
+        rp = json.load(open(chk.replay))["replay"]
+        ctxs = ([rp["context"]] if isinstance(rp.get("context"), dict) else []) + base_ctxs
+        aux = dict(base_aux); aux.update(REC_AUX); aux.update(rp.get("aux") or {})
+        add("replay", rp["template"], ctxs=ctxs, aux=aux, sentinel=None, main=rp.get("main", "main"))
     else:
         depth = 3 if chk.thorough else 2
         for i, t in enumerate(nestings(depth)):
-            templates.append(("nest%d" % i, t))
+            add("nest%d" % i, t)
         for i, t in enumerate(else_controls()):
-            templates.append(("elsectl%d" % i, t))
+            add("elsectl%d" % i, t)
         if not chk.thorough:
-            # sample of the 3-deep nestings in quick
             all3 = list(nestings(3))
             for j in range(400):
-                templates.append(("nest3s%d" % j, all3[chk.rng.below(len(all3))]))
+                add("nest3s%d" % j, all3[chk.rng.below(len(all3))])
         nrand = 6000 if chk.thorough else 600
         for j in range(nrand):
-            g = proggen.Gen(chk.rng, {"autoescape": True, "recursive": False, "strings_with_meta": True}, max_depth=3 + chk.rng.below(2))
+            g = proggen.Gen(chk.rng, {"autoescape": True, "recursive": j % 3 == 0, "strings_with_meta": True}, max_depth=3 + chk.rng.below(2))
             ctx, kinds = proggen.default_context(chk.rng)
             body = g.template(kinds) + [("raw", SENT)]
-            gen_asts[len(templates)] = body
-            templates.append(("gen%d" % j, proggen.body_src(body)))
+            add("gen%d" % j, proggen.body_src(body), ast=body)
         for k, (src, exp) in enumerate(escape_state_family()):
-            expected[len(templates)] = exp
-            templates.append(("escstate%d" % k, src + SENT))
-        for name, src in fixture_templates():
-            templates.append(("fixture:" + name, src))
-    hist = collections.Counter()
+            add("escstate%d" % k, src + SENT, expect=[None if exp is None else ("ok", exp + SENT)] * 3)
+        # the recursive-loop family: expected output from the extracted Gallina oracle
+        fam = rec_family(chk.rng, 3000 if chk.thorough else 300)
+        trees = rec_trees()
+        rec_cases, rec_slots = [], []
+        for label, body, has_else, after in fam:
+            ctxs, slots = [], []
+            for ti, t in enumerate(trees):
+                if after and not t:
+                    continue
+                t2 = trees[(ti + 1) % len(trees)] if after else None
+                ctxs.append({"tree": t, "tree2": t2 or [], "lt": "<"})
+                rec_cases.append(rec_case(body, has_else, t, t2))
+            rec_slots.append((len(T), len(ctxs)))
+            add("rec:" + label, rec_template(body, has_else, after), ctxs=ctxs, aux=REC_AUX, sentinel="|<after")
+            for it in json.dumps(body).split('"call", "')[1:]:
+                hist["rec_call_position_" + it.split('"')[0]] += 1
+            hist["rec_family_else" if has_else else "rec_family_noelse"] += 1
+        exp = pmap(lambda c: run_model("C05", "c05-rec", c), rec_cases)
+        k = 0
+        for ti, n in rec_slots:
+            es = []
+            for e in exp[k:k + n]:
+                if e[:1] == [0]:
+                    es.append(("ok", "".join(chr(c) for c in e[1:])))
+                elif e[:1] == [1] and len(e) > 1 and e[1] > 0:
+                    es.append(("err", e[1]))
+                else:
+                    chk.violation("the recursive-loop oracle did not evaluate a generated case", {"theorem_or_correspondence": "C05/RecLoop.v runner c05-rec", "template": T[ti]["src"], "answer": e[:6]}, True)
+                    es.append(None)
+            T[ti]["expect"] = es
+            k += n
+        for name, src, ctx, refs in fixture_cases():
+            add("fixture:" + name, src, ctxs=[ctx] if ctx is not None else [], aux=refs, sentinel=None, main=name, dynamic=False)
     # ---- static: verified checker on the real instruction streams ----
-    reqs = [{"templates": {"main": src}, "main": "main", "ctx": {}, "ops": ["instructions"]} for _, src in templates]
-    dumps = run_prog(reqs)
+    reqs, owners = [], []
+    aux_seen = {}
+    for ti, t in enumerate(T):
+        tm = dict(t["aux"]); tm[t["main"]] = t["src"]
+        reqs.append({"templates": tm, "main": t["main"], "ctx": {}, "ops": ["instructions"]})
+        owners.append((ti, t["main"]))
+        if t["name"].startswith("rec:") or t["name"] == "replay":
+            for an, asrc in t["aux"].items():
+                if (an, asrc) not in aux_seen:
+                    aux_seen[(an, asrc)] = ti
+                    reqs.append({"templates": {an: asrc}, "main": an, "ctx": {}, "ops": ["instructions"]})
+                    owners.append((ti, an))
+    dumps = pmap(lambda r: run_prog(r), reqs)
     streams = []   # (template index, stream name, instrs)
-    for ti, d in enumerate(dumps):
+    for (ti, tn), d in zip(owners, dumps):
         ins = d.get("instructions")
         if not ins:
             hist["not_compiled"] += 1
             continue
-        streams.append((ti, "main", ins["main"]))
+        streams.append((ti, tn, ins["main"]))
         for bn, b in sorted(ins["blocks"].items()):
-            streams.append((ti, "block:" + bn, b))
+            streams.append((ti, tn + ":block:" + bn, b))
     # what the VM pops when a recursion call returns is read from vm/mod.rs of the tree under test
     try:
         vmrule = absinstr.vm_return_rule(REPO)
@@ -161,9 +435,10 @@ def main():
         try:
             cases.append(absinstr.encode(instrs))
         except ValueError as ex:
-            chk.violation("instruction not known to the translator", {"theorem_or_correspondence": "tools/absinstr.py", "error": str(ex), "template": templates[ti][1]}, True)
+            chk.violation("instruction not known to the translator", {"theorem_or_correspondence": "tools/absinstr.py", "error": str(ex), "template": T[ti]["src"]}, True)
             cases.append([0, 0])
-    verdicts = run_model("C05", "c05", cases)
+    verdicts = pmap(lambda c: run_model("C05", "c05", c), cases)
+    stats = pmap(lambda c: run_model("C05", "c05-stats", c), cases)
     rejected = []
     for k, v in enumerate(verdicts):
         if v[:1] == [1]:
@@ -181,36 +456,46 @@ def main():
         hist["streams_with_" + op] = sum(1 for _, _, ins in streams if any(i["op"] == op for i in ins))
     hist["streams"] = len(streams)
     hist["instructions"] = sum(len(ins) for _, _, ins in streams)
-    # ---- dynamic: render, sentinel must arrive, no crash ----
-    ctxs = [{"l": [1, 2, 3], "c": True, "t": True, "n": 3, "m": 2, "s": "a<b", "k": [1, 2], "v": "<"},
-            {"l": [1, 2, 3], "c": False, "t": True, "n": 0, "m": -2, "s": "", "k": [], "v": "<"},
-            {"l": [], "c": True, "t": False, "n": 7, "m": 10, "s": "Q'", "k": [1], "v": "<"}]
-    # what the reference interpreter (Lang/Interp.v, extracted for C03) renders for the generated programs:
-    # scope, capture and auto-escape state after every construct show in the rest of the output
+    hist["recursive_loops"] = sum(s[0] for s in stats if len(s) == 3)
+    hist["recursion_call_sites"] = sum(s[1] for s in stats if len(s) == 3 and s[0] > 0)
+    hist["region_analyses"] = sum(s[2] for s in stats if len(s) == 3)
+    hist["streams_with_recursive_loop_and_else"] = sum(
+        1 for _, _, ins in streams if any(i["op"] == "PushDidNotIterate" for i in ins) and any(i["op"] == "PushLoop" and i["arg"] & 2 for i in ins))
+    # ---- dynamic: render, sentinel must arrive, expected output, no crash ----
+    # what the reference interpreter (Lang/Interp.v, extracted for C03) renders for the generated programs without
+    # recursion calls: scope, capture and auto-escape state after every construct show in the rest of the output
     ref = {}
-    if gen_asts and build_models("C03")[0]:
-        keys = [(ti, ci) for ti in sorted(gen_asts) for ci in range(len(ctxs))]
-        outs = run_model("C03", "c03", [langenc.request(gen_asts[ti], ctxs[ci])[0] for ti, ci in keys])
+    gen_idx = [ti for ti, t in enumerate(T) if t["ast"] is not None and not has_loop_call(t["ast"])]
+    if gen_idx and build_models("C03")[0]:
+        keys = [(ti, ci) for ti in gen_idx for ci in range(len(T[ti]["ctxs"]))]
+        outs = pmap(lambda c: run_model("C03", "c03", c), [langenc.request(T[ti]["ast"], T[ti]["ctxs"][ci])[0] for ti, ci in keys])
         for k, o in zip(keys, outs):
             ref[k] = o
     dyn_reqs, dyn_idx = [], []
-    for ti, (name, src) in enumerate(templates):
-        if name.startswith("fixture:"):
+    for ti, t in enumerate(T):
+        if not t["dynamic"]:
             continue
-        for ci, ctx in enumerate(ctxs):
-            dyn_reqs.append({"templates": {"main": src, "inc0.txt": "i0", "inc1.txt": "{{ n }}"}, "main": "main", "ctx": ctx, "ops": ["render"]})
+        tm = dict(t["aux"]); tm[t["main"]] = t["src"]
+        for ci, ctx in enumerate(t["ctxs"]):
+            dyn_reqs.append({"templates": tm, "main": t["main"], "ctx": ctx, "ops": ["render"]})
             dyn_idx.append((ti, ci))
     dyn_bad = []
     for rel in (False, True):
-        res = run_prog(dyn_reqs, release=rel, watchdog_ms=8000)
+        res = pmap(lambda r: run_prog(r, release=rel, watchdog_ms=8000), dyn_reqs)
         for (ti, ci), r in zip(dyn_idx, res):
             rr = r.get("render", r)
+            t = T[ti]
+            want = t["expect"][ci]
             if "ok" in rr:
                 hist["render_ok"] += 1
-                if not rr["ok"].endswith(SENT):
+                if t["sentinel"] and not rr["ok"].endswith(t["sentinel"]):
                     dyn_bad.append((ti, ci, rel, "text after the construct did not reach the output", rr["ok"][-60:]))
-                elif expected.get(ti) is not None and rr["ok"] != expected[ti] + SENT:
-                    dyn_bad.append((ti, ci, rel, "auto-escape state not restored after a construct", "got %r expected %r" % (rr["ok"], expected[ti] + SENT)))
+                elif want is not None and want != ("ok", rr["ok"]):
+                    what = ("a recursive loop did not render the fold over the tree (operand, capture or escape state not restored around a recursion call)"
+                            if t["name"].startswith("rec:") else "auto-escape state not restored after a construct")
+                    dyn_bad.append((ti, ci, rel, what, "got %r expected %r" % (rr["ok"][-200:], want)))
+                elif want is not None:
+                    hist["expected_output_agree"] += 1
                 elif (ti, ci) in ref and ref[(ti, ci)][:1] == [0] and "".join(chr(c) for c in ref[(ti, ci)][2:]) != rr["ok"]:
                     dyn_bad.append((ti, ci, rel, "output differs from the reference semantics (scope / capture / escape state after a construct)",
                                     "got %r expected %r" % (rr["ok"][-120:], "".join(chr(c) for c in ref[(ti, ci)][2:])[-120:])))
@@ -219,8 +504,72 @@ def main():
                     hist["ref_agree"] += 1
             elif "err" in rr:
                 hist["render_err_%s" % ERR_NAMES.get(rr["err"], rr["err"])] += 1
+                if want is not None and want != ("err", rr["err"]):
+                    dyn_bad.append((ti, ci, rel, "a recursive loop did not render the fold over the tree (operand, capture or escape state not restored around a recursion call)",
+                                    "got error kind %r expected %r" % (rr["err"], want)))
+                elif want is not None:
+                    hist["expected_error_agree"] += 1
             else:
                 dyn_bad.append((ti, ci, rel, "crash", json.dumps(r)[:200]))
+    # ---- trace: every activation of eval_impl replayed through the abstract machine ----
+    tr_reqs, tr_idx = [], []
+    for ti, t in enumerate(T):
+        tm = dict(t["aux"]); tm[t["main"]] = t["src"]
+        for ci, ctx in enumerate(t["ctxs"]):
+            tr_reqs.append({"templates": tm, "main": t["main"], "ctx": ctx})
+            tr_idx.append((ti, ci))
+    env = dict(ENV); env["MJVERIF_WATCHDOG_MS"] = "8000"
+    probe = run_json([bin_path("c05_trace")], tr_reqs[:1], env=env) if tr_reqs else []
+    trace_bad = []
+    if probe and probe[0].get("hook") is False:
+        chk.notes["trace"] = "the tree under test has no shape observer (hook commit `hook: verif_hooks shape observer` not applied): the step-by-step tie of the abstract machine to eval_impl was NOT run"
+        hist["trace_hook_missing"] = 1
+    else:
+        tres = pmap(lambda r: run_json([bin_path("c05_trace")], r, env=env), tr_reqs)
+        tcases, tmeta = [], []
+        for (ti, ci), r in zip(tr_idx, tres):
+            if not r.get("hook"):
+                if "panic" in r or "hang" in r or "crash" in r:
+                    hist["trace_render_crash"] += 1   # reported by the dynamic part with the plain harness
+                continue
+            if r.get("truncated"):
+                hist["trace_truncated"] += 1
+            for ai, act in enumerate(r["acts"]):
+                for si, obs in act:
+                    try:
+                        c = absinstr.encode(r["streams"][si])
+                    except ValueError:
+                        continue
+                    c.append(len(obs))
+                    for o in obs:
+                        c += o
+                    tcases.append(c)
+                    tmeta.append((ti, ci, ai, si, len(obs), r["streams"][si]))
+                    hist["trace_observations"] += len(obs)
+                    code = r["streams"][si]
+                    for a, b in zip(obs, obs[1:]):
+                        if b[0] != a[0] + 1 and code[b[0]]["op"] == "PushLoop" and code[a[0]]["op"] in ("FastRecurse", "CallFunction"):
+                            hist["trace_recursion_entries_" + code[a[0]]["op"]] += 1
+                        if code[a[0]]["op"] == "PopLoopFrame" and b[0] != a[0] + 1:
+                            hist["trace_recursion_returns"] += 1
+        tver = pmap(lambda c: run_model("C05", "c05-trace", c), tcases)
+        hist["trace_activations"] = len(tcases)
+        for meta, v in zip(tmeta, tver):
+            if v[:1] == [1]:
+                hist["trace_replayed_ok"] += 1
+                continue
+            ti, ci, ai, si, n, code = meta
+            # a stream whose zero constants need another typing: try the alternatives before believing it
+            alts = list(absinstr.typings(code))[1:]
+            ok = False
+            if alts:
+                k = tmeta.index(meta)
+                tail = tcases[k][len(absinstr.encode(code)):]
+                ok = any(r[:1] == [1] for r in run_model("C05", "c05-trace", [absinstr.encode(code, t) + tail for t in alts]))
+            if ok:
+                hist["trace_replayed_ok"] += 1
+            else:
+                trace_bad.append((meta, v))
     # ---- evidence ----
     nontriv = set()
     for ti, sn, ins in streams:
@@ -228,35 +577,64 @@ def main():
         if ops & {"PushWith", "BeginCapture", "PushAutoEscape", "PushLoop"}:
             nontriv.add(json.dumps(ins, sort_keys=True))
     chk.cov["programs"] = len(streams)
-    chk.cov["evaluations"] = len(streams) + 2 * len(dyn_reqs)
+    chk.cov["evaluations"] = len(streams) + 2 * len(dyn_reqs) + hist["trace_activations"]
     chk.cov["distinct_nontrivial"] = len(nontriv)
-    chk.cov["rule"] = ("templates: every nesting of the 9 scoped constructs up to depth %s with break/continue (guarded and bare) at the innermost point, "
-                       "seeded typed random templates, and the repository's test fixtures; each compiled by the CURRENT compiler, every stream (template body, macro bodies, blocks) "
-                       "checked on all paths by the extracted verified checker, and rendered under 3 contexts x {debug, release} with a sentinel after the constructs. "
+    chk.cov["rule"] = ("templates: every nesting of the 9 scoped constructs up to depth %s with break/continue (guarded and bare) at the innermost point, loop controls in else blocks, "
+                       "seeded typed random templates (a third with recursive loops), the escape-state family, the recursive-loop family (every call position x else/no else x wrapper construct, "
+                       "calls through stored loop objects from nested loops / after the loop / macros of the same and of another template / includes, random bodies, trees of depth 0..4) "
+                       "and the repository's test fixtures with their own contexts; each compiled by the CURRENT compiler, every stream (template body, macro bodies, blocks) "
+                       "checked on all paths by the extracted verified checker (entry-point analysis + one analysis per recursive loop and call site), rendered under its contexts x {debug, release} "
+                       "against sentinel / expected output / reference interpreter, and every activation of eval_impl replayed step by step through the abstract machine. "
                        "non-trivial = distinct instruction stream containing at least one frame/capture/auto-escape/loop push" % ("3" if chk.thorough else "2 (+400 sampled depth-3)"))
-    chk.cov["samples"] = [templates[i][1] for i in (0, len(templates) // 2, max(0, len(templates) - 200))]
+    chk.cov["samples"] = [T[i]["src"] for i in (0, len(T) // 2, max(0, len(T) - 200))] if T else []
     chk.cov["distribution"] = dict(hist)
     chk.cov["streams_rejected"] = len(rejected)
     chk.cov["dynamic_failures"] = len(dyn_bad)
+    chk.cov["trace_failures"] = len(trace_bad)
     # ---- verdicts ----
     seen = set()
-    for ti, ci, rel, what, detail in dyn_bad[:5]:
-        if ti in seen:
+    def replay_of(ti, ci=None):
+        t = T[ti]
+        r = {"template": t["src"], "main": t["main"]}
+        aux = {k: v for k, v in t["aux"].items() if k not in base_aux}
+        if aux and not t["name"].startswith("fixture:"):
+            r["aux"] = aux
+        if ci is not None and ci < len(t["ctxs"]):
+            r["context"] = t["ctxs"][ci]
+        return r
+    for ti, ci, rel, what, detail in dyn_bad:
+        if ti in seen or len(seen) >= 5:
             continue
         seen.add(ti)
-        chk.violation(what, {"template": templates[ti][1], "context": ctxs[ci], "profile": "release" if rel else "debug", "observed": detail})
-    for k, v in rejected[:5]:
+        r = replay_of(ti, ci); r.update({"profile": "release" if rel else "debug", "observed": detail, "family": T[ti]["name"]})
+        chk.violation(what, r)
+    nrej = 0
+    for k, v in rejected:
         ti, sn, instrs = streams[k]
-        if ti in seen:
+        if ti in seen or nrej >= 5:
             continue
-        seen.add(ti)
+        seen.add(ti); nrej += 1
         pcb = v[2] if len(v) > 2 else None
-        info = {"template": templates[ti][1], "stream": sn, "rejected_at_pc": pcb,
-                "instruction": instrs[pcb] if pcb is not None and pcb < len(instrs) else None,
-                "note": "the template is the failing input: some path through its compiled code discards a frame/capture/auto-escape/operand it did not create or ends unbalanced"}
+        info = replay_of(ti)
+        info.update({"stream": sn, "rejected_at_pc": pcb, "instruction": instrs[pcb] if pcb is not None and pcb < len(instrs) else None, "family": T[ti]["name"],
+                     "note": "the template is the failing input: some path through its compiled code discards a frame/capture/auto-escape/operand it did not create or ends unbalanced"})
         if len(v) > 5 and v[1] > 0:
             info["analysis"] = "activation of the recursive loop at pc %d entered by the call before pc %d (%s)" % (v[3], v[4], "capturing" if v[5] else "not capturing")
         chk.violation("a control-flow path of the compiled code is not balanced (verified checker rejects the stream)", info)
+    ntr = 0
+    for (ti, ci, ai, si, n, code), v in trace_bad:
+        if ntr >= 5:
+            break
+        ntr += 1
+        reasons = {1: "pc outside the stream", 2: "the abstract machine is stuck where the VM went on", 3: "no abstract successor has the observed pc and depths",
+                   4: "recursion entry: depths at the PushLoop differ", 5: "recursion entry: first body instruction differs", 6: "entry: fewer operands than the entry point's arguments",
+                   7: "activation does not start at an entry point"}
+        info = replay_of(ti, ci)
+        info.update({"activation": ai, "observation": v[1] if len(v) > 1 else None, "reason": reasons.get(v[2] if len(v) > 2 else 0, str(v)),
+                     "pc_before": v[3] if len(v) > 3 else None, "observed_pc": v[4] if len(v) > 4 else None,
+                     "instruction_before": code[v[3]] if len(v) > 3 and v[3] < len(code) else None, "family": T[ti]["name"],
+                     "note": "the observed run of eval_impl is not a run of the abstract machine: the VM holds other frames / captures / auto-escape entries / operands than the model says (the VM is unbalanced here, or Model.v misdescribes it)"})
+        chk.violation("an observed run of eval_impl leaves the abstract shape machine (step-by-step replay of the traced render)", info)
     if not chk.violations and not proofs_ok:
         chk.violation("proof obligations of C05 do not check", {"theorem_or_correspondence": chk.proof["problems"]}, True)
     chk.finish()
